@@ -361,7 +361,11 @@ fn select_call(rng: &mut Rng) -> Call<SelectStatement> {
             })
         }
         18 => {
-            let u = crate::apply::sel(&g.simple_select(1, None));
+            let mut u = crate::apply::sel(&g.simple_select(1, None));
+            if g.rng.coin() {
+                // an operand with its own ordering and limit
+                u.order_by_expr(Expr::val(1).into(), Order::Desc).limit(3);
+            }
             let ty = *g.rng.pick(&[UnionType::All, UnionType::Distinct, UnionType::Except, UnionType::Intersect]);
             call("union", "union", move |s: &mut SelectStatement| {
                 s.union(ty, u.clone());
